@@ -1,25 +1,52 @@
 """C02 -- v2 file tree, pieces roots and piece layers follow BEP 52 exactly."""
 from props import v2_common as V
+from props import creators_common as cc
 
 GEN_FILES = []
-EXTRA_TARGETS = ["Extract/ExtractV2.vo"]
-AREAS = ["v2"]
+EXTRA_TARGETS = ["Extract/ExtractV2.vo", "Extract/ExtractCreators.vo"]
+AREAS = ["v2", "creators"]
+CREATOR_KINDS = ["v2-class", "v2-asm", "hybrid-class", "hybrid-asm"]      # v2_capable_output of the theorems
 RULE = ("model tie: the extracted Coq models of HasherV2, HasherHybrid (padding on/off) and FileHasher (hybrid x padding, iterated "
         "to exhaustion as TorrentAssembler does) vs the real classes on one file per case -- root, piece layer and the yielded "
         "layer hashes are compared (C03 compares the v1 side); cases: every size of the boundary set {< B, k*B+-1, = pl, "
         "k*pl+-1, k*pl+-B, piece counts 1,2,3,4,5,8,9} x pl/B in {1,2,4,8} with the real BLOCK_SIZE (files <= 600 KB), and, "
-        "marked patched_constant, sizes 0..160 x pl in {4,8,16,32,64} with torrentfile.hasher.BLOCK_SIZE patched to 4 (exhaustive in "
-        "the thorough tier, together with B=1 and B=3 scopes (sizes 0..59, pl/B in {1,2,4,8}) and 400 random real-B sizes; a sample "
-        "of 120 in quick; the quick tier runs the exhaustive scopes too when the source of a modelled function changed); merkle_root on "
+        "marked patched_constant, sizes 0..160 x pl in {4,8,16,32,64} with torrentfile.hasher.BLOCK_SIZE patched to 4 "
+        "(exhaustive in "
+        "the thorough tier, together with B=1 and B=3 scopes (sizes 0..59, pl/B in {1,2,4,8}) and 400 random real-B sizes; a "
+        "sample "
+        "of 120 in quick; the quick tier runs the exhaustive scopes too when the source of a modelled function changed); "
+        "merkle_root on "
         "lists of 0..33 hashes and next_power_2 on 0..1000 vs their models; Spec/Bep52.v vs the reference oracle on the same "
         "inputs.  Every real hasher is also compared with the reference oracle directly (root for size > 0, layer for size > pl). "
         "End to end: TorrentFileV2, TorrentFileHybrid, TorrentAssembler (meta version 2 and 3) and `create --meta-version 2|3` on "
         "generated trees (single files, flat and nested directories, empty files, identical files, >= 2 multi-piece files, sizes "
         "pl / pl+1, empty directories); the written metafile is decoded by the reference strict decoder and file tree, pieces "
         "roots (two reference formulations) and the piece-layers dictionary are compared with the tree as it is on disk.  "
+        "Unit correspondence of Model/Creators.v (the creator-level theorems rest on it): TorrentFileV2, "
+        "TorrentAssembler (meta version 2 and 3) and TorrentFileHybrid (two of the four per tree in the quick tier) "
+        "write a metafile for generated content trees (single file / flat / nested to depth 3 / a directory next to a "
+        "sibling whose name sorts between it and its children / identical files / >= 2 multi-piece files / empty "
+        "directories / names differing only in case / non-ASCII names; sizes from {0,1,B+-1,B,pl+-1,pl,2pl+-1,...}), an "
+        "option subset, one of 25 spellings of the path, a patched clock and the enumeration order of every directory "
+        "fixed by a runner-side patch of os.listdir/os.scandir and handed to the model as the order of its entry lists; "
+        "the extracted creator composed with Model/Bencode.v encode predicts the BYTES of the written file -- compared "
+        "byte for byte.  "
         "A case is non-trivial when it is distinct and hits at least one boundary class.")
-TRUSTED_BASE = V.TRUSTED_BASE
-ASSUMPTIONS = V.ASSUMPTIONS
+TRUSTED_BASE = V.TRUSTED_BASE + [
+    "hand-written models Model/Creators.v (the _traverse / assemble methods of TorrentFileV2, TorrentFileHybrid and "
+    "TorrentAssembler, MetaFile.__init__, sort_meta), Model/Bencode.v (pyben's encoder) and Spec/PathSem.v (name and path "
+    "components from the path string) tied to torrent.py by differential execution: extracted OCaml vs the BYTES the creator "
+    "writes, under a controlled enumeration order (runner-side patch of os.listdir/os.scandir; Path.iterdir of CPython 3.12 calls "
+    "os.listdir), a patched clock (torrentfile.torrent.datetime) and, for cases marked patched_constant, a patched "
+    "torrentfile.hasher.BLOCK_SIZE",
+]
+ASSUMPTIONS = [a for a in V.ASSUMPTIONS if not a.startswith("creator-level statements")] + [
+    "creator-level theorems (Props file, from Proofs/CreatorsProofs*.v) are about Model/Creators.v, which the unit correspondence "
+    "ties to torrent.py byte for byte; the same statements are also checked end to end against the reference oracle",
+    "file names are valid UTF-8 without '/', distinct per directory (wf_node); the payload contains at least one file",
+]
+
+UNIT_N = (72, 600)          # content trees of the creators unit correspondence (quick, thorough)
 
 
 def run(ctx, model_ok):
@@ -30,7 +57,13 @@ def run(ctx, model_ok):
     if ctx.tier == "thorough":
         ctx.exhaustive = True       # the patched small scopes are enumerated completely
     V.require_classes(ctx, V.REQUIRED_V2 + V.REQUIRED_CREATORS)
+    # the creators unit correspondence counts its own boundary classes (after the end-to-end requirement above)
+    quick = ctx.tier == "quick"
+    cc.unit_for(ctx, model_ok, CREATOR_KINDS, n=UNIT_N[0] if quick else UNIT_N[1], budget=90000 if quick else 300000,
+                required=cc.REQUIRED_CLASSES, kinds_per_case=2)
 
 
 def replay(ctx, data):
+    if data.get("disagreements") or data.get("broken") or "what" in data:
+        return cc.replay_disagreements(ctx, data, "C02")
     return V.replay_case(ctx, data, "C02")
